@@ -406,6 +406,59 @@ def check_files(tier, seed, order, res):
     import shutil
     shutil.rmtree(d, ignore_errors=True)
 
+
+# ---------------------------------------------------------------- one Game written several times
+def check_rewrites(variant, seed, res):
+    """Every sequence of <= 3 writes over {.p8, .p8.png} of ONE Game object: each file must be what a fresh, equal
+    Game gives when written once in that format, and the Game's regions must be untouched by writing."""
+    import itertools
+    from pico8.game.formatter.p8 import P8Formatter
+    from pico8.game.formatter.p8png import P8PNGFormatter
+    fills = region_fills(variant, seed)
+    fills['music'] = bytes((b & 0x7f) if i % 4 == 3 else b for i, b in enumerate(fills['music']))
+    code = b'-- rewrite %d\nx=1 y=2 print(x+y) foo=x+y foo=x+y foo=x+y\n' % variant
+
+    def write(g, fmt):
+        buf = io.BytesIO()
+        (P8Formatter if fmt == 'p8' else P8PNGFormatter).to_file(g, buf, filename='x.' + fmt)
+        return buf.getvalue()
+
+    def content(data, fmt):
+        if fmt == 'p8':
+            return data
+        w, h, planes, rows = rc.png_decode(data)
+        return rc.stego_unpack(w, h, planes, rows)[:0x8001]
+    single = {}
+    for fmt in ('p8', 'png'):
+        single[fmt] = content(write(make_game(fills, version=33, code=code), fmt), fmt)
+    for n in (1, 2, 3):
+        for seq in itertools.product(('p8', 'png'), repeat=n):
+            g = make_game(fills, version=33, code=code)
+            for step, fmt in enumerate(seq):
+                res.evaluations += 1
+                res.nontriv(('rewrite', variant, seq[:step + 1]))
+                case = {'kind': 'rewrite', 'variant': variant, 'seed': seed}
+                hist = '+'.join(seq[:step + 1])
+                try:
+                    data = content(write(g, fmt), fmt)
+                except Exception as e:
+                    res.violation('C16|rewrite|raise|%s|%s' % (type(e).__name__, hist),
+                                  'writing one Game as %s: the last write raised %r' % (hist, e), case)
+                    break
+                if data != single[fmt]:
+                    res.violation('C16|rewrite|output|%s' % hist,
+                                  'one Game written as %s: the last file differs from what a fresh equal Game gives when '
+                                  'written once as %s (%d vs %d bytes of content)' % (hist, fmt, len(data), len(single[fmt])), case)
+                    break
+                bad = [name for name, _ in rc.REGION_ORDER if bytes(getattr(g, name).to_bytes()) != fills[name]]
+                if bad:
+                    res.violation('C16|rewrite|game-mutated|%s|%s' % (bad[0], hist),
+                                  'after writing the Game as %s its %s region holds %d bytes / other contents (was %d bytes)' % (
+                                      hist, bad[0], len(getattr(g, bad[0]).to_bytes()), len(fills[bad[0]])), case)
+                    break
+            else:
+                res.outcome(('rewrite', seq))
+
 # ---------------------------------------------------------------- driver
 SFX_SPECIAL_HEADERS = [(0, 16, 0, 0), (0, 1, 0, 0), (0, 0, 0, 0), (1, 16, 0, 0), (0, 16, 0, 1), (0, 32, 0, 0)]
 MUSIC_SPECIAL_ROWS = [(0x41, 0x42, 0x43, 0x44), (0, 0, 0, 0), (0x40, 0x40, 0x40, 0x40), (0, 1, 2, 3), (0xc1, 0x42, 0x43, 0x44)]
@@ -461,6 +514,8 @@ def shards(tier, seed):
         items.append(('td', base))
     for order in range(4):
         items.append(('files', tier, seed, order))
+    for v in range(2 if tier == 'quick' else 6):
+        items.append(('rewrite', v, seed))
     return items
 
 
@@ -511,6 +566,9 @@ def run_shard(item):
         check_png_whole(item[1], item[2], res)
     elif kind == 'td':
         check_testdata(item[1], res)
+    elif kind == 'rewrite':
+        check_rewrites(item[1], item[2], res)
+        res.sample({'family': 'rewrite', 'sequences': 'all of length 1..3 over {.p8, .p8.png} on one Game object'})
     elif kind == 'files':
         check_files(item[1], item[2], item[3], res)
         if item[3] == 0:
@@ -528,6 +586,8 @@ def replay(case):
         check_png_whole(case['variant'], case['seed'], res)
     elif case['kind'] == 'testdata':
         check_testdata(case['base'], res)
+    elif case['kind'] == 'rewrite':
+        check_rewrites(case['variant'], case['seed'], res)
     elif case['kind'] == 'files':
         check_files(case['tier'], case['seed'], case['order'], res)
     return [(s, v[0]) for s, v in res.violations.items()]
